@@ -187,6 +187,23 @@ impl Property for Soundness {
     }
 
     fn gen_case(&self, tape: &mut Tape, _tier: Tier) -> Option<Json> {
+        if tape.chance(7, 8) {
+            // a tape-generated typed program (all constructs, nested), printed with some literals hidden
+            let profile = *tape.pick(&[
+                crate::genr::prog::Profile::GENERAL,
+                crate::genr::prog::Profile::ITERATORS,
+                crate::genr::prog::Profile::CELLS,
+                crate::genr::prog::Profile::CONTROL,
+                crate::genr::prog::Profile::SCOPING,
+            ]);
+            let program = crate::genr::case::generate(tape, profile);
+            let hide = match tape.below(3) {
+                0 => crate::genr::ast::Hide::None,
+                1 => crate::genr::ast::Hide::All,
+                _ => crate::genr::ast::Hide::Mask(tape.u64()),
+            };
+            return Some(json!({"kind": "program", "text": crate::genr::case::print(&program, hide)}));
+        }
         // a random cell of the binary part of the matrix
         let x = tape.below(CATALOGUE.len());
         let y = tape.below(CATALOGUE.len());
@@ -218,7 +235,11 @@ impl Property for Soundness {
             }
             "program" => {
                 let text = case["text"].as_str().unwrap_or("");
+                let t0 = std::time::Instant::now();
                 let run = exec::run_program(text, self.monitor());
+                if std::env::var("VERIF_TRACE").is_ok() && t0.elapsed().as_millis() > 300 {
+                    eprintln!("SLOW {} ms: {text}", t0.elapsed().as_millis());
+                }
                 if matches!(run.outcome, Outcome::Rejected(_)) {
                     return Verdict::Discard("rejected by the checker");
                 }
@@ -259,15 +280,17 @@ pub fn run(session: &Session, prop: &'static Soundness) -> i32 {
     if !session.stopped() {
         session.run_enum(prop, cases);
     }
-
+    if !session.stopped() {
+        session.run_tapes(prop, session.tier.of(40_000, 2_000_000), 600, 0);
+    }
     let (rule, assumptions): (&str, &[&str]) = match prop.mode {
         Mode::Cells => ("", &[]),
         Mode::Types => (
-            "the operator x operand-type matrix: every unary/postfix/statement template applied to a parameter of each of 60 catalogue types (exhaustive), every infix/assignment operator and two-operand template on all pairs of catalogue types (exhaustive); each function the checker accepts is called through the host API and in-language with every combination of the catalogue's values for its parameter types (every union member, empty arrays, exhausted iterators, cells); the documentation corpus is executed too. Oracle: the verif monitor reports every instruction result, argument binding, function return, the final result and every reachable cell with the static type the checker computed; the harness's own membership test (tag and contents, recursively) must hold. Non-trivial = an execution with at least one observation whose static type is a union, array, tuple, struct, function or mut; distinct by call.",
+            "the operator x operand-type matrix: every unary/postfix/statement template applied to a parameter of each of 60 catalogue types (exhaustive), every infix/assignment operator and two-operand template on all pairs of catalogue types (exhaustive); each function the checker accepts is called through the host API and in-language with every combination of the catalogue's values for its parameter types (every union member, empty arrays, exhausted iterators, cells); the documentation corpus and 40k (quick) tape-generated typed programs of every profile (closures, cells, iterators incl. exhausted ones, control flow, unions) are executed too. Oracle: the verif monitor reports every instruction result, argument binding, function return, the final result and every reachable cell with the static type the checker computed; the harness's own membership test (tag and contents, recursively) must hold. Non-trivial = an execution with at least one observation whose static type is a union, array, tuple, struct, function or mut; distinct by call.",
             &["instructions inside the placeholder-typed helper closures of @ ? ~ are not judged (their static types are not claims about user values)"],
         ),
         Mode::Panics => (
-            "the operator x operand-type matrix (as for C01) and the documentation corpus: every accepted function is called through the host API and in-language with every combination of catalogue values of its parameter types. Oracle: execution ends in a value or one of the six documented run-time errors; a panic is a violation; exhausted fuel/depth/length budgets are counted as inconclusive. Non-trivial = an accepted program that was executed to a value or documented error; distinct by call.",
+            "the operator x operand-type matrix (as for C01), the documentation corpus and 40k (quick) tape-generated typed programs of every profile: every accepted function is called through the host API and in-language with every combination of catalogue values of its parameter types. Oracle: execution ends in a value or one of the six documented run-time errors; a panic is a violation; exhausted fuel/depth/length budgets are counted as inconclusive. Non-trivial = an accepted program that was executed to a value or documented error; distinct by call.",
             &["programs run against std without fs and io"],
         ),
     };
